@@ -197,30 +197,58 @@ theorem C06_targets (c : Cert) (hc : c ∈ allCerts) {i : Nat} (hi : i < c.n) :
       · exact absurd (List.contains_iff_mem.2 hm) (by rw [hf]; simp)
       · exact he
 
-/-- COLLECTIONS: a successful `convert_to_unit(u)` replaces values, unit label together and keeps
-    the data type: the new values are exactly `to_unit(old values, u, old unit)` and the label is `u`;
-    a rejected conversion changes nothing (the model returns the error instead of a new state). -/
+/-- COLLECTIONS: a successful `convert_to_unit(u)` (necessarily on a mutable collection) replaces
+    values and unit label together and keeps the data type and the class: the new values are exactly
+    `to_unit(old values, u, old unit)` and the label is `u`; a rejected conversion changes nothing (the
+    model returns the error instead of a new state). -/
 theorem C06_collection_in_step (c : Coll) (u : String) (c' : Coll) (h : c.convertToUnit u = .ok c') :
-    c'.unit = u ∧ c'.T.name = c.T.name ∧ c'.T.units = c.T.units ∧ c.T.toUnit c.values u c.unit = .ok c'.values := by
+    c.immutable = false ∧ c'.unit = u ∧ c'.T.name = c.T.name ∧ c'.T.units = c.T.units ∧
+    c'.immutable = c.immutable ∧ c.T.toUnit c.values u c.unit = .ok c'.values := by
   unfold Coll.convertToUnit at h
-  cases hv : c.T.toUnit c.values u c.unit with
-  | error e => simp [hv, bind, Except.bind] at h
-  | ok v =>
-    simp only [hv, bind, Except.bind, pure, Except.pure, Except.ok.injEq] at h
-    subst h
-    exact ⟨rfl, rfl, rfl, rfl⟩
+  cases hi : c.immutable with
+  | true => simp [hi] at h
+  | false =>
+    simp only [hi, Bool.false_eq_true, if_false, Coll.convUnit] at h
+    cases hv : c.T.toUnit c.values u c.unit with
+    | error e => simp [hv] at h
+    | ok v =>
+      simp only [hv, Except.ok.injEq] at h
+      subst h
+      exact ⟨rfl, rfl, rfl, rfl, hi.symm ▸ rfl, rfl⟩
 
-/-- COLLECTIONS, physical meaning: after `convert_to_unit` from a listed unit `units[i]` to a listed
-    unit `units[j]` every value is the index-level conversion of the old one, hence (by
-    `C06_si_value`) within 0.2 % of what the SI definitions give, and converting back returns the old
-    values within 2e-5 (`C06_roundtrip`). -/
-theorem C06_collection_meaning (k : Cert) (hk : k ∈ allCerts) (vals : List Rat) {u v : String}
+/-- COLLECTIONS, immutable classes: `convert_to_unit / convert_to_ip / convert_to_si` are rejected
+    (AttributeError) whatever the unit; nothing is returned, so values, label and data type stay as they
+    were. -/
+theorem C06_immutable_convert_rejected (c : Coll) (h : c.immutable = true) (u : String) :
+    c.convertToUnit u = .error Err.attr ∧ c.convertToIp = .error Err.attr ∧ c.convertToSi = .error Err.attr := by
+  simp [Coll.convertToUnit, Coll.convertToIp, Coll.convertToSi, h]
+
+/-- COLLECTIONS, `to_unit(u)` (every class, mutable or immutable): the copy carries the new label, the
+    same data type and the same (im)mutability, and its values are exactly `to_unit(values, u, unit)`. -/
+theorem C06_collection_copy_in_step (c : Coll) (u : String) (c' : Coll) (h : c.toUnitCopy u = .ok c') :
+    c'.unit = u ∧ c'.T.name = c.T.name ∧ c'.T.units = c.T.units ∧ c'.immutable = c.immutable ∧
+    c.T.toUnit c.values u c.unit = .ok c'.values := by
+  simp only [Coll.toUnitCopy, Coll.convUnit] at h
+  cases hv : c.T.toUnit c.values u c.unit with
+  | error e => simp [hv] at h
+  | ok v =>
+    simp only [hv, Except.ok.injEq] at h
+    subst h
+    exact ⟨rfl, rfl, rfl, rfl, rfl⟩
+
+/-- COLLECTIONS, physical meaning: `to_unit` (any class) and `convert_to_unit` (mutable) from a listed
+    unit `units[i]` to a listed unit `units[j]` succeed, and every new value is the index-level conversion
+    of the old one, hence (by `C06_si_value`) within 0.2 % of what the SI definitions give, and converting
+    back returns the old values within 2e-5 (`C06_roundtrip`). -/
+theorem C06_collection_meaning (k : Cert) (hk : k ∈ allCerts) (vals : List Rat) (imm : Bool) {u v : String}
     (hu : u ∈ k.T.units) (hv : v ∈ k.T.units) :
-    ∃ i j c', i < k.n ∧ j < k.n ∧ (⟨k.T, u, vals⟩ : Coll).convertToUnit v = .ok c' ∧ c'.unit = v ∧
-      c'.values = vals.map (k.T.convIdx i j) := by
+    ∃ i j c', i < k.n ∧ j < k.n ∧ (⟨k.T, u, vals, imm⟩ : Coll).toUnitCopy v = .ok c' ∧
+      (imm = false → (⟨k.T, u, vals, imm⟩ : Coll).convertToUnit v = .ok c') ∧ c'.unit = v ∧
+      c'.immutable = imm ∧ c'.values = vals.map (k.T.convIdx i j) := by
   obtain ⟨i, j, hi, hj, _, _, ht⟩ := C06_to_unit_listed k hk hu hv vals
-  refine ⟨i, j, ⟨k.T, v, vals.map (k.T.convIdx i j)⟩, hi, hj, ?_, rfl, rfl⟩
-  simp [Coll.convertToUnit, ht, bind, Except.bind, pure, Except.pure]
+  refine ⟨i, j, ⟨k.T, v, vals.map (k.T.convIdx i j), imm⟩, hi, hj, ?_, ?_, rfl, rfl, rfl⟩
+  · simp [Coll.toUnitCopy, Coll.convUnit, ht]
+  · intro h; subst h; simp [Coll.convertToUnit, Coll.convUnit, ht]
 
 /-! ### Angle (formulas in π): symbolic, over any field of characteristic 0 and any non-zero π -/
 
